@@ -542,47 +542,57 @@ theorem timeframe_fold_numeric (pos : Nat) (v0 : Str) (vs : List Str)
     have t2 := numCmp_trans (numsOf v0) (numsOf x) (numsOf r)
     have t3 := numCmp_trans (numsOf r) (numsOf v0) (numsOf x)
     have t4 := numCmp_trans (numsOf r) (numsOf x) (numsOf v0)
-    have orv0 := hs r hr' v0 (by simp)
-    have orx := hs r hr' x (by simp)
-    have ov0r := hs v0 (by simp) r hr'
-    have oxr := hs x (by simp) r hr'
-    have e1 := verLt_iff r v0 orv0
-    have e2 := verLt_iff r x orx
-    have e3 := verLt_iff v0 r ov0r
-    have e4 := verLt_iff x r oxr
+    have t5 := numCmp_trans (numsOf x) (numsOf r) (numsOf v0)
+    have t6 := numCmp_trans (numsOf v0) (numsOf r) (numsOf x)
     have e5 := verLt_iff v0 x hv0x
     have e6 := verLt_iff x v0 hxv0
-    rcases hv with hv | hv | hv
-    · subst hv
-      by_cases hp : pos % 2 = 0
-      · simp only [hp, if_true] at hbm hm ⊢
-        cases h1 : verLt v0 x
-        · simp only [h1, Bool.false_eq_true, if_false] at hm; subst hm; exact hbm
+    have n1 : verLt r v0 = false ↔ 0 ≤ numCmp (numsOf r) (numsOf v0) := by
+      rw [← Bool.not_eq_true, verLt_iff r v0 (hs r hr' v0 (by simp))]; omega
+    have n2 : verLt r x = false ↔ 0 ≤ numCmp (numsOf r) (numsOf x) := by
+      rw [← Bool.not_eq_true, verLt_iff r x (hs r hr' x (by simp))]; omega
+    have n3 : verLt v0 r = false ↔ 0 ≤ numCmp (numsOf v0) (numsOf r) := by
+      rw [← Bool.not_eq_true, verLt_iff v0 r (hs v0 (by simp) r hr')]; omega
+    have n4 : verLt x r = false ↔ 0 ≤ numCmp (numsOf x) (numsOf r) := by
+      rw [← Bool.not_eq_true, verLt_iff x r (hs x (by simp) r hr')]; omega
+    by_cases hp : pos % 2 = 0
+    · simp only [hp, if_true] at hbm hm ⊢
+      have key : verLt r v0 = false ∧ verLt r x = false := by
+        by_cases h1 : verLt v0 x = true
         · simp only [h1, if_true] at hm; subst hm
-          cases h2 : verLt r v <;> simp_all <;> omega
-      · simp only [hp, if_false] at hbm hm ⊢
-        cases h1 : verLt x v
-        · simp only [h1, Bool.false_eq_true, if_false] at hm; subst hm; exact hbm
+          have := n2.mp hbm; have := e5.mp h1
+          exact ⟨n1.mpr (by omega), hbm⟩
+        · simp only [h1, Bool.false_eq_true, if_false] at hm; subst hm
+          have := n1.mp hbm; have : ¬ numCmp (numsOf v0) (numsOf x) < 0 := fun h => h1 (e5.mpr h)
+          exact ⟨hbm, n2.mpr (by omega)⟩
+      rcases hv with hv | hv | hv
+      · rw [hv]; exact key.1
+      · rw [hv]; exact key.2
+      · exact by simpa [hp] using hall v (by simp [hv])
+    · simp only [hp, if_false] at hbm hm ⊢
+      have key : verLt v0 r = false ∧ verLt x r = false := by
+        by_cases h1 : verLt x v0 = true
         · simp only [h1, if_true] at hm; subst hm
-          cases h2 : verLt v r <;> simp_all <;> omega
-    · subst hv
-      by_cases hp : pos % 2 = 0
-      · simp only [hp, if_true] at hbm hm ⊢
-        cases h1 : verLt v0 v
+          have := n4.mp hbm; have := e6.mp h1
+          exact ⟨n3.mpr (by omega), hbm⟩
         · simp only [h1, Bool.false_eq_true, if_false] at hm; subst hm
-          cases h2 : verLt r v <;> simp_all <;> omega
-        · simp only [h1, if_true] at hm; subst hm; exact hbm
-      · simp only [hp, if_false] at hbm hm ⊢
-        cases h1 : verLt v v0
-        · simp only [h1, Bool.false_eq_true, if_false] at hm; subst hm
-          cases h2 : verLt v r <;> simp_all <;> omega
-        · simp only [h1, if_true] at hm; subst hm; exact hbm
-    · exact hall v (by simp [hv])
+          have := n3.mp hbm; have : ¬ numCmp (numsOf x) (numsOf v0) < 0 := fun h => h1 (e6.mpr h)
+          exact ⟨hbm, n4.mpr (by omega)⟩
+      rcases hv with hv | hv | hv
+      · rw [hv]; exact key.1
+      · rw [hv]; exact key.2
+      · exact by simpa [hp] using hall v (by simp [hv])
+
+/-- every `(product, version)` the two rating databases mention -/
+def dbVersions : List (Str × Str) := dbVersionsOf Gen.ssh2db ++ dbVersionsOf Gen.ssh1db
 
 /-- every pair of versions of one product occurring anywhere in the two rating databases -/
 def dbPairs : List (Str × Str) :=
-  let vs := (dbVersionsOf Gen.ssh2db ++ dbVersionsOf Gen.ssh1db).eraseDups
+  let vs := dbVersions.eraseDups
   vs.flatMap fun a => (vs.filter (fun b => b.1 = a.1)).map fun b => (a.2, b.2)
+
+theorem mem_dbPairs (p a b : Str) (ha : (p, a) ∈ dbVersions) (hb : (p, b) ∈ dbVersions) : (a, b) ∈ dbPairs := by
+  simp only [dbPairs, List.mem_flatMap, List.mem_map, List.mem_filter, List.mem_eraseDups, decide_eq_true_eq]
+  exact ⟨(p, a), ha, (p, b), ⟨hb, rfl⟩, rfl⟩
 
 /-- **Table obligation** (regenerated from /repo on every run): every same-product pair of
     version strings in the databases is order-safe, so `Timeframe`'s string comparisons — hence
@@ -590,6 +600,21 @@ def dbPairs : List (Str × Str) :=
     OpenSSH `10.0` next to `9.9` to a database breaks this theorem. -/
 theorem db_versions_order_safe : ∀ ab ∈ dbPairs, orderSafe ab.1 ab.2 = true := by
   decide +kernel
+
+/-- Consequently, whatever versions of one product the databases feed into one `Timeframe` slot,
+    in whatever order, the slot ends up holding the numerically newest ("from") / oldest ("till"). -/
+theorem db_timeframe_numeric (pos : Nat) (p v0 : Str) (vs : List Str) (h : ∀ v ∈ v0 :: vs, (p, v) ∈ dbVersions) :
+    ∃ r, vs.foldl (slotStep pos) (some v0) = some r ∧ r ∈ v0 :: vs ∧
+      ∀ v ∈ v0 :: vs, (if pos % 2 = 0 then verLt r v else verLt v r) = false :=
+  timeframe_fold_numeric pos v0 vs (fun a ha b hb =>
+    db_versions_order_safe (a, b) (mem_dbPairs p a b (h a ha) (h b hb)))
+
+-- GOAL (not yet proved): `tfUpdate` / `sshTimeframe` as a whole (which descriptor of which list
+-- reaches which of the four slots, the per-product association list) equals a numeric min/max
+-- specification.  Proved above: the slot rule itself (`slotStep`, folded in any order over
+-- pairwise order-safe versions) and the order-safety of everything the databases contain; the
+-- bookkeeping around it is tied to timeframe.py by correspondence (ops ver.tf / ver.dbtf) and
+-- checked against an independent numeric re-implementation by the oracle (check 'timeframe').
 
 /-! ### Non-vacuity -/
 
